@@ -146,7 +146,11 @@ class Oracle:
             self.builds += 1
             if r.rc != 0:
                 raise RuntimeError("clean build of oracle failed (rc=%s):\n%s" % (r.rc, r.out[-2000:]))
-            paths = bobrun.query_paths(d, target, False, ["-DV=%s" % proj["V"]] if define else [])
+            paths = bobrun.dev_paths(d)
+            if paths is None or (proj["dep"] and "app/lib" not in paths):
+                paths = bobrun.query_paths(d, target, False, ["-DV=%s" % proj["V"]] if define else [])
+            elif not proj["dep"]:
+                paths.pop("app/lib", None)
             res = {}
             for name, ps in paths.items():
                 pkg = name.split("/")[-1]
@@ -196,6 +200,17 @@ class BehaviourReplay:
             c += ["-DV=%s" % self.proj["V"]]
         return c + list(extra)
 
+    def paths(self, ws=None):
+        """current workspace paths: cheap directory listing in develop mode when unambiguous, else `bob query-path`"""
+        ws = ws or self.ws
+        if not self.release:
+            p = bobrun.dev_paths(ws)
+            if p is not None:
+                if self.proj is not None and not self.proj["dep"]:
+                    p.pop("app/lib", None)    # lib is not part of the project state; its old directories are not visited
+                return p
+        return bobrun.query_paths(ws, "app", self.release, self.defines())
+
     def defines(self):
         return ["-DV=%s" % self.proj["V"]] if self.define and self.proj is not None else []
 
@@ -225,7 +240,7 @@ class BehaviourReplay:
         if r.rc != 0:
             self.viol("invocation-failed:" + what, rc=r.rc, out=r.out[-3000:])
             return False
-        paths = bobrun.query_paths(self.ws, "app", self.release, self.defines())
+        paths = self.paths()
         want = self.oracle.clean(proj, define=self.define, prune=self.prune)
         ok = True
         for name, ps in paths.items():
@@ -298,7 +313,7 @@ class BehaviourReplay:
                     shutil.rmtree(self.tmp, ignore_errors=True)
                     shutil.copytree(self.ws, self.tmp, symlinks=True)
                     dry = self.invoke(ws=self.tmp)
-                    paths = bobrun.query_paths(self.tmp, "app", self.release, self.defines()) if dry.rc == 0 else {}
+                    paths = self.paths(self.tmp) if dry.rc == 0 else {}
                     paths = {n.split("/")[-1]: v for n, v in paths.items()}
                     shutil.rmtree(self.tmp, ignore_errors=True)
                     if dry.rc != 0:
